@@ -17,7 +17,7 @@ nodes, irrational roots, beyond the 32-bit guard) the SOURCE expression's own nu
 value is the violation.  Also: user function maps (f_dict), shared symbol tables, cse path,
 matrices element-wise.
 """
-import sys, json, math, os, itertools, collections, traceback, warnings
+import sys, json, math, os, signal, time, collections, traceback, warnings
 from fractions import Fraction
 import multiprocessing as mp
 from harness.core import Run, run_tlc, parse_dump, main_wrap, MachineryError
@@ -25,6 +25,7 @@ from harness.core import Run, run_tlc, parse_dump, main_wrap, MachineryError
 PID = "C19"
 RTOL = 1e-9
 NPROC = int(os.environ.get("VERIF_WORKERS", "16"))
+TREE_TIMEOUT = 30        # seconds per tree (all directions and variants); SymPy occasionally does not return
 
 UN = ("neg", "sqrt", "sin", "cos", "tan", "atan")
 BIN = ("add", "sub", "mul", "div", "lt", "le", "eq", "ne", "min", "max", "fmod", "rem")
@@ -263,6 +264,7 @@ def check_s2c(tree, nf, envs, variant, fd_order, cse, res):
     C = res["counts"]
     lifted = variant == "lifted"
     vals = {}
+    _W["phase"] = f"s2c/{variant}/cse={cse}"
     try:
         src = sp_build(tree, lifted, vals)
     except NotRepresentable:
@@ -345,6 +347,7 @@ def check_c2s(tree, nf, envs, variant, res):
     C = res["counts"]
     lifted = variant == "lifted"
     vals, syms = {}, {}
+    _W["phase"] = f"c2s/{variant}"
     try:
         src = ca_build(tree, lifted, vals, syms)
     except NotRepresentable:
@@ -397,9 +400,17 @@ def check_c2s(tree, nf, envs, variant, res):
     res["done"].add(("c2s", variant, tree))
 
 
+class TreeTimeout(Exception):
+    pass
+
+
+def _on_alarm(*_a):
+    raise TreeTimeout()
+
+
 def new_res():
     return {"counts": collections.Counter(), "raised": [], "bad": [], "selfcheck": [], "done": set(), "maxerr": 0.0,
-            "matbad": [], "crash": []}
+            "matbad": [], "crash": [], "timeout": [], "slowest": (0.0, None)}
 
 
 def work(chunk):
@@ -407,7 +418,10 @@ def work(chunk):
     if not _W:
         _init_worker()
     res = new_res()
+    signal.signal(signal.SIGALRM, _on_alarm)
     for idx, tree, nf, envs in chunk:
+        t0 = time.time()
+        signal.alarm(TREE_TIMEOUT)
         try:
             has_call = any(n[0] == "call" for n in nodes(tree))
             for variant in ("literal", "lifted"):
@@ -421,8 +435,15 @@ def work(chunk):
                 res["counts"]["s2c/cse_trees"] += 1
         except MachineryError:
             raise
+        except TreeTimeout:
+            res["timeout"].append((tree, _W.get("phase")))
         except Exception:
             res["crash"].append((tree, traceback.format_exc()[-1500:]))
+        finally:
+            signal.alarm(0)
+        dt = time.time() - t0
+        if dt > res["slowest"][0]:
+            res["slowest"] = (round(dt, 2), tree)
     res["done"] = list(res["done"])
     return res
 
@@ -729,8 +750,10 @@ def run_chunks(items):
         results = [work(c) for c in chunks]
     for r in results:
         tot["counts"].update(r["counts"])
-        for k in ("raised", "bad", "selfcheck", "crash"):
+        for k in ("raised", "bad", "selfcheck", "crash", "timeout"):
             tot[k] += r[k]
+        if r["slowest"][0] > tot["slowest"][0]:
+            tot["slowest"] = r["slowest"]
         tot["done"].update(r["done"])
         tot["maxerr"] = max(tot["maxerr"], r["maxerr"])
     return tot
@@ -810,6 +833,10 @@ def main():
     tot = run_chunks(items)
     if tot["crash"]:
         raise MachineryError(f"harness crashed on {len(tot['crash'])} trees; first: {tot['crash'][0]}")
+    for tree, phase in tot["timeout"]:
+        run.spec_drift(f"harness/timeout/{phase}", f"a tree did not finish within {TREE_TIMEOUT} s (SymPy evaluation); it is not counted as replayed")
+    if len(tot["timeout"]) > max(5, len(items) // 1000):
+        raise MachineryError(f"{len(tot['timeout'])} trees timed out; first: {tot['timeout'][:5]}")
     if tot["selfcheck"]:
         raise MachineryError(f"binding self-check: the source expression's own value differs from the spec's exact value "
                              f"on {len(tot["selfcheck"])} vectors; first: " + "\n".join(map(str, tot["selfcheck"][:60])))
@@ -888,6 +915,7 @@ def main():
                 "(literal / lifted constants) for all their environments; non-trivial = distinct non-leaf trees converted in at least one direction",
         "distinct_trees": len(bytree), "result_tags": dict(tags), "cells": dict(cells),
         "raised": {f"{d}/{t}/{e}": n for (d, t, e), n in sorted(raised_roots.items())},
+        "timeouts": [list(t) for t in tot["timeout"][:20]], "slowest_tree": list(tot["slowest"]),
         "incidental_exception_samples": {k: list(v) for k, v in raise_samples.items()},
         "parent_side": dict(cov), "exhaustive": True,
     })
